@@ -57,4 +57,5 @@ let () =
       let p = if pol = "1" then Some { p_name = bytes_of_hex polname; p_quotas = quotas rest } else None in
       print_endline (match check_quota p (bytes_of_hex user) m (z_of_dec now) with
                      | QAllow -> "A" | QAllowErr -> "AE" | QRefuse -> "R" | QPanic -> "P")
+    | ["KV"; days; mb] -> print_endline (bool_s (validate_quota (z_of_dec days) (z_of_dec mb)))
     | _ -> print_endline "?")
